@@ -40,11 +40,11 @@ TWINS = {
 
 # batches that are wired into checks (a batch under construction is simply not listed here yet)
 READY = ['core', 'eslice', 'op_eval', 'cfi_lookup', 'cfi_uctx', 'cfi_uctx_link', 'line_hdr', 'attrs', 'units', 'dwarf_ranges', 'index', 'relocate',
-         'conv', 'filter', 'wcore', 'wreloc', 'wop', 'wlists', 'wunit', 'wunit_layout', 'wcfi', 'wline', 'wline_insn', 'leb', 'macros', 'names', 'bases', 'wabbrev', 'filter_reserve', 'wline_prog', 'conv_attrs', 'conv_expr', 'wlists_add', 'wunit_tree', 'dwp']
+         'conv', 'filter', 'wcore', 'wreloc', 'wop', 'wlists', 'wunit', 'wunit_layout', 'wcfi', 'wline', 'wline_insn', 'leb', 'macros', 'names', 'bases', 'wabbrev', 'filter_reserve', 'wline_prog', 'conv_attrs', 'conv_expr', 'wlists_add', 'wunit_tree', 'dwp', 'wunit_table']
 # batch -> batches whose items it re-verifies completely (so the smaller one need not run as well)
 SUPERSEDES = {'wline_prog': ['wline_insn'], 'op_eval': ['op'], 'dwarf_ranges': ['lists'], 'cfi_uctx_link': ['cfi_unwind'], 'line_hdr': ['line'], 'cfi_lookup': ['cfi_entries']}
 # tags that only quote another property's vocabulary inside a batch (not obligations of that property)
-IGNORE = {('line_hdr', 'C03'), ('wline', 'C12'), ('filter', 'C01'), ('filter', 'C07'), ('wunit', 'C03'), ('wunit', 'C15'), ('conv', 'C05'), ('index', 'C09'), ('macros', 'C10'), ('names', 'C10'), ('wunit_layout', 'C16'), ('bases', 'C10'), ('wabbrev', 'C02'), ('filter_reserve', 'C02'), ('conv_attrs', 'C19'), ('conv_expr', 'C07'), ('dwp', 'C10')}
+IGNORE = {('line_hdr', 'C03'), ('wline', 'C12'), ('filter', 'C01'), ('filter', 'C07'), ('wunit', 'C03'), ('wunit', 'C15'), ('conv', 'C05'), ('index', 'C09'), ('macros', 'C10'), ('names', 'C10'), ('wunit_layout', 'C16'), ('bases', 'C10'), ('wabbrev', 'C02'), ('filter_reserve', 'C02'), ('conv_attrs', 'C19'), ('conv_expr', 'C07'), ('dwp', 'C10'), ('wunit_table', 'C15')}
 
 ND = {
     'C01': 'entry points not extracted (MacroString::string, Dwarf/DwarfSections loaders, DwarfPackage::load, ConvertUnit::convert*), stack depth '
@@ -64,7 +64,7 @@ ND = {
            'bodies (batch leb, over the read_u8 contract) but remains an assumption for a user reader that overrides them.',
     'C10': 'EndianReader over arbitrary user buffer types (CloneStableDeref is the user\'s contract); AddressSanitizer-style whole-run '
            'checks; positional clauses of EndianSlice are discharged by Kani on bounded buffers only.',
-    'C11': 'AbbreviationTable::add de-duplication, StringTable, LineStringTable (IndexSet/IndexMap), Dwarf::write section order, and the end-to-end '
+    'C11': 'the head of UnitTable::write (unit loop; its fix-up tail is decided in batch wunit_table), DebuggingInformationEntry::{set, delete, delete_child, get} (closures: assumed contracts), Unit::new, AbbreviationTable::add de-duplication, StringTable, LineStringTable (IndexSet/IndexMap), Dwarf::write section order, and the end-to-end '
            'statement "reads back as the same forest": only the size model and per-kind emission are decided.',
     'C12': 'ConvertUnit::{convert, convert_attributes, read_entry, add_entry} (that every attribute is fed through convert_attribute_value, decided in batch conv_attrs, and stored under the same name), the two loops of Expression::from (operation order, the offsets table; the per-operation match is decided in batch conv_expr), ConvertLineProgram (needs the whole reader-side line machine), idempotence '
            'of a second conversion, corpus round trips.',
